@@ -258,12 +258,31 @@ def plan_C08(prop, tier, seed, t0):
                                                 "--stride", 3 if q else 1, "--compare"], **T),
         dict(name="rand", engine="tensor", args=["--random", 1500 if q else 30000, "--rand", "maxsp=7,maxb=4"], **T),
         dict(name="circ", engine="tensor", args=["--enum", "2,2,small" if q else "2,3,small", "--enum", "3,1,x", "--random-circuits", 300 if q else 6000], **T),
+        # API-coverage additions (docs/api_audit.md #4, #5): comparison helpers in both number types, QubitOps, plug_n_qubits
+        dict(name="helpers", engine="tensor", args=["--helpers", 1500 if q else 30000, "--objects", 160 if q else 3000, "--qops", 400 if q else 8000,
+                                                    "--plug", 200 if q else 4000, "--unsupported"], **T),
+        # size-dependent code paths: rayon / ndarray split their work by size (hadamard_at zips two halves of the tensor in
+        # parallel, cphase_at / delta_at broadcast), so one width above every threshold the code has must be exercised:
+        # 6- and 7-qubit circuits (4096 / 16384 entries) through Circuit::to_tensor4/f AND to_graph().to_tensor4(), and
+        # direct hadamard_at / cphase_at / delta_at on ident(6) at the first, last and middle index positions
+        dict(name="wide", engine="tensor", args=["--wide", 48 if q else 400, "--wide7", "--wide-ops", 16 if q else 120], **T),
     ]
-    return run_plan(prop, tier, seed, t0, mcs, traces, "model_checking", COMMON_ASSUME,
+    return run_plan(prop, tier, seed, t0, mcs, traces, "model_checking", COMMON_ASSUME + [
+                        "the float-typed comparison helpers cross-multiply in floating point: a 'proportional' verdict is only demanded where "
+                        "float arithmetic is exact (Gaussian dyadic entries) or the tensors are equal; on diagrams / circuits (to_tensorf "
+                        "rounds an exact 0 to 1e-16) the float verdicts are counted, not judged",
+                        "plug_n_qubits is judged for `other` with exactly 2n indices; for other shapes it is wrong in the unchanged code "
+                        "(switch PlugGeneral in mc/Trace_Tensor.tla, patch work/gD_fix_1.diff), counted in stats"],
                     "MC: the specification's two independent evaluators (sum over assignments / vertex elimination) agree on every diagram of "
                     "the family and are invariant under colour change; TRACE: one execution = one diagram or circuit evaluated by the "
                     "library's to_tensor4/to_tensorf in both backends; TLC compares every entry with Den / CircSem; the comparison helpers "
-                    "are run on all ordered pairs of a pool of 0-, 1- and 2-index tensors; non-trivial = has at least one spider / gate")
+                    "are run on all ordered pairs of a pool of 0-, 1- and 2-index tensors; non-trivial = has at least one spider / gate. "
+                    "Additions: every comparison helper (==, scalar_eq, compare, scalar_compare; Scalar4 and Complex<f64>) on seeded pairs of "
+                    "fixed tensors (equal / proportional / one or both zero / different shapes / near misses) and on diagrams and circuits, "
+                    "judged by equality / ProjEq of the logged exact tensors; QubitOps ident, delta, cphase, hadamard and sequences of "
+                    "hadamard_at / cphase_at / delta_at with caller-chosen index positions judged entry by entry against Circuit.tla's gate "
+                    "application (App1 with MHad, AppDiag) and IdTensor; plug_n_qubits against Compose; circuits on 6 and 7 qubits and the "
+                    "same operations on ident(6) because tensor code is size dependent (parallel zip, broadcasting)")
 
 
 def plan_C11(prop, tier, seed, t0):
@@ -364,12 +383,20 @@ def plan_C05(prop, tier, seed, t0):
     cfgs = ["small", "cat", "cat4", "bss", "tpair", "cat6"] if q else ["small", "cat", "cat4", "cat5", "cat6", "m5", "bss", "tpair"]
     mcs = [dict(name="step_" + c, module="MC_Decomp.tla", cfg=f"MC_Decomp_{c}.cfg", timeout=3000) for c in cfgs]
     mcs += [dict(name="par1", module="MC_DecompPar.tla", cfg="MC_DecompPar_1.cfg", timeout=3000),
-            dict(name="par2", module="MC_DecompPar.tla", cfg="MC_DecompPar_2.cfg", timeout=3000)]
+            dict(name="par2", module="MC_DecompPar.tla", cfg="MC_DecompPar_2.cfg", timeout=3000),
+            # two-stage use (decompose_until_depth, then decompose): the stored tree of sum and PRODUCT nodes keeps the value
+            dict(name="tree", module="MC_DecompTree.tla", cfg="MC_DecompTree_q.cfg" if q else "MC_DecompTree_t.cfg", timeout=3000 if q else 9000,
+                 actions=("Stage1", "Witness"))]
     T = dict(module="Trace_Decomp.tla", cfg="Trace_Decomp.cfg")
     traces = [
         dict(name="steps", engine="decomp", args=["--steps", 400 if q else 6000, "--maxt", 6], **T),
         dict(name="runs", engine="decomp", args=["--runs", 14 if q else 300, "--circuits", 6 if q else 150, "--maxt", 6] + ([] if q else ["--all-threads"]), **T),
         dict(name="saved", engine="decomp", args=["--saved", 60 if q else 1200, "--maxt", 5], **T),
+        # API-coverage additions (docs/api_audit.md #3, #14): decompose_until_depth(k) + finishing run on hosts that fall into
+        # components; decompose_standard, hash backend, Sherlock tries, Decomposer::empty()/set_target re-use, saving in other modes
+        dict(name="two", engine="decomp", args=["--two", 6 if q else 150, "--maxt", 5], **T),
+        dict(name="more", engine="decomp", args=["--more", 9 if q else 300, "--reuse", 30 if q else 900, "--saved-modes", 6 if q else 200,
+                                                 "--steps-hash", 18 if q else 900, "--maxt", 6], **T),
     ]
     return run_plan(prop, tier, seed, t0, mcs, traces, "model_checking", COMMON_ASSUME + [
                         "'every schedule' of the real rayon pool is sampled (pool sizes 1,2,3,4,8,16 x repetitions), the fork-join model "
@@ -379,7 +406,16 @@ def plan_C05(prop, tier, seed, t0):
                     "decomposer on computation trees with 2 workers: every partial result equals the subtree's value under every schedule, "
                     "termination; TRACE: one execution = one host diagram with (a) every driver's chosen step and explicit steps through the "
                     "guarded apply_decomp re-export, (b) complete Decomposer runs over 7 drivers x 3 simplification levels x split on/off x "
-                    "sequential + parallel pools, (c) saved terms of the BSS-type drivers on diagrams with outputs; all decided in TLC by Den")
+                    "sequential + parallel pools, (c) saved terms of the BSS-type drivers on diagrams with outputs; all decided in TLC by Den. "
+                    "Additions: MC_DecompTree: the tree decompose_until_depth leaves behind (sum nodes, product nodes of components with the "
+                    "whole scalar on the first) has the host's value at every depth and reduces to it, for all hosts over K spiders (every "
+                    "component structure) x depth x split x 3 model drivers; TRACE (d) two-stage histories decompose_until_depth(k in 0..3) then "
+                    "decompose / decompose_parallel / another driver on clones of the partial state, 7 drivers x 3 levels x split on/off, on "
+                    "juxtaposed diagrams and diagrams that split after one step, both backends (TwoStageScalarOK), (e) decompose_standard, "
+                    "Decomposer<hash_graph::Graph>, Sherlock tries other than [2,2,2], one Decomposer::empty() re-used through set_target for "
+                    "2-4 targets with with_full_simp / with_clifford_simp (the previous target must not leak), apply_decomp on the hash backend, "
+                    "saved terms of two-stage / re-used / hash decomposers; saving combined with decompose_parallel or component splitting, "
+                    "max_terms vs nterms, a second decompose_until_depth, Sherlock parameters without a candidate are counted, not judged")
 
 
 def plan_C06(prop, tier, seed, t0):
@@ -389,7 +425,7 @@ def plan_C06(prop, tier, seed, t0):
     simdir = os.path.join(WORK, prop, "simdir")
     traces = [
         dict(name="cli", engine="sim", args=["--quizx-bin", QUIZX_BIN, "--dir", simdir, "--circuits", 40 if q else 600, "--shots", 6 if q else 12,
-                                             "--queries", 5 if q else 10, "--maxq", 3, "--maxlen", 8], **T),
+                                             "--queries", 5 if q else 10, "--maxq", 3, "--maxlen", 8, "--variants"], **T),
     ]
     return run_plan(prop, tier, seed, t0, mcs, traces, "model_checking", COMMON_ASSUME + [
                         "printed decimals and the sampler's p are compared at 1e-9 (harness arithmetic) with values derived from the exact scalars that TLC validates",
@@ -399,7 +435,10 @@ def plan_C06(prop, tier, seed, t0):
                     "`quizx sim` binary: amplitudes for bit strings (incl. broadcast), expectation values for Pauli strings (incl. lower case and "
                     "broadcast), sampling runs with the hook logging every draw, methods --cats/--bss/default, with and without --parallel, "
                     "plus a catalogue of malformed queries; every exact scalar the decomposer returned is compared by TLC with the amplitude / "
-                    "expectation / marginal it must be")
+                    "expectation / marginal it must be. Additions (--variants, docs/api_audit.md #13): per circuit the command without a task flag "
+                    "(one shot), -s 0, the long flags --shots / --amplitude / --expval / --parallel, -p N for N in {0,1,3,4}, -o / --out (the answer "
+                    "is read back from the file), malformed flag values; once per run unreadable / malformed input files (MalformedRejected), legal "
+                    "OpenQASM the front end does not support (UnsupportedInputNoPanic), a circuit with a measurement (outside the quantifier: counted)")
 
 
 def plan_C07(prop, tier, seed, t0):
@@ -417,7 +456,12 @@ def plan_C07(prop, tier, seed, t0):
                     "specification (Ring.tla) over all pairs of small elements; TRACE: one execution = one seeded history of 60-150 operations on "
                     "registers of Dyadic / Scalar4 values, multiplication depth <= 6 so that the exact ghosts stay small (constants incl. full 64-bit mantissas, doubles, phases; + - * neg conj sqrt2-powers "
                     "phases; comparisons, tests, views, float conversions); TLC recomputes the exact value of every register with BigNat and decides "
-                    "Normalised, Honest (unflagged => exact), order / abs_diff_eq / tests, float conversions within 1e-12; non-trivial = operations producing a value")
+                    "Normalised, Honest (unflagged => exact), order / abs_diff_eq / tests, float conversions within 1e-12; non-trivial = operations producing a value. "
+                    "Every binary operation runs through one of its overloads in turn (owned / reference operands, += -= *= with owned or reference right-hand side, "
+                    "Sum, Product; Dyadic += -= *= abs, PartialOrd) and must equal the owned operator bit for bit (VariantOK); From<i64>/<[i64;4]>/<f64>/<[f64;4]>, "
+                    "Default, minus_one, sqrt2, one_over_sqrt2, mul_one_plus_phase are judged against their ghosts; approx()/set_approx() (Scalar4 and Dyadic) against "
+                    "the raw flags (ApproxAccessorOK); complex_value() and the owned TryFrom<Scalar4> both within 1e-12 (every sixth history has its constants near "
+                    "2^+-820); Scalar4's abs_diff_eq outside a band around its epsilon (AbsDiffEq4OK); Display/Debug are executed and counted only")
 
 
 PLANS = {"C01": plan_C01, "C07": plan_C07, "C06": plan_C06, "C05": plan_C05, "C09": plan_C09, "C03": plan_C03, "C12": plan_C12, "C11": plan_C11, "C08": plan_C08, "C02": plan_C02, "C04": plan_C04, "C10": plan_C10, "C15": plan_C15}
